@@ -24,7 +24,10 @@ RULE = ('Hypothesis draws a lexicon biased towards tie shapes: a hypernym graph 
         'relation, taxonomy, similarity, IC, Morphy, validate, dump and export call; lists and '
         'mappings in returned order, floats by repr, written files in full) runs in subprocesses '
         'started with different PYTHONHASHSEED values (quick 4, thorough 8), twice per process '
-        'with a burst of read-only calls in between. Oracle (metamorphic): all transcripts are '
+        'with a burst of read-only calls in between; a second lexicon without relations shares '
+        'ILIs with the first and the battery is run per Wordnet configuration (lexicon x expand), '
+        'visited in a different order in every process and in reverse order in the second pass. '
+        'Oracle (metamorphic): all transcripts of a configuration are '
         'identical, and the raw table dump is unchanged by the read-only calls. Non-trivial: the '
         'database contains at least one tie shape; distinct by database; evaluations = databases.')
 ASSUMPTIONS = [
@@ -103,7 +106,21 @@ def _cases(draw):
            'license': 'l', 'meta': None, 'entries': entries, 'synsets': synsets}
     if lexframes:
         lex['frames'] = lexframes
-    return {'resource': {'lmf_version': version, 'lexicons': [lex]}}
+    # a second lexicon without relations of its own that shares ILIs with the first:
+    # its taxonomy exists only through expand lexicons, so results depend on the
+    # Wordnet configuration - and must not depend on which configuration was used before
+    tsyn = [{'id': f't-s{i}', 'ili': ss['ili'], 'partOfSpeech': ss['partOfSpeech'],
+             'meta': None} for i, ss in enumerate(synsets) if ss['ili'] and i % 3 != 2]
+    tent = [{'id': f't-e{i}', 'meta': None,
+             'lemma': {'writtenForm': f'tw{i}', 'partOfSpeech': ss['partOfSpeech']},
+             'senses': [{'id': f't-e{i}-a', 'synset': ss['id'], 'meta': None}]}
+            for i, ss in enumerate(tsyn)]
+    lexicons = [lex]
+    if tsyn:
+        lexicons.append({'id': 't', 'version': '1', 'label': 'translation', 'language': 'es',
+                         'email': 'e', 'license': 'l', 'meta': None, 'entries': tent,
+                         'synsets': tsyn})
+    return {'resource': {'lmf_version': version, 'lexicons': lexicons}}
 
 
 def _anc(edges, x):
@@ -158,22 +175,31 @@ def oracle(case):
     wn.add(xml, progress_handler=None)
     env.close_pool()
     seeds = list(range(8 if os.environ.get('WNV_TIER') == 'thorough' else 4))
+    configs = [['files'], ['d:1', ''], [None, None]]
+    if len(case['resource']['lexicons']) > 1:
+        configs += [['t:1', ''], ['t:1', 'd:1'], ['t:1 d:1', None]]
     outs = {}
     procs = []
     for hs in seeds:
         scratch = work / f'hs{hs}'
         scratch.mkdir()
+        # every process visits the configurations in another order
+        k = hs % len(configs)
+        order = configs[k:] + configs[:k]
+        if hs % 2:
+            order = list(reversed(order))
         e = dict(os.environ, PYTHONHASHSEED=str(hs),
                  PYTHONPATH=str(VERIF_ROOT) + os.pathsep + os.environ.get('PYTHONPATH', ''))
         procs.append((hs, subprocess.Popen(
-            [sys.executable, '-m', 'wnv.battery', str(db.dir), str(xml), str(scratch)],
+            [sys.executable, '-m', 'wnv.battery', str(db.dir), str(xml), str(scratch),
+             json.dumps(order)],
             env=e, cwd=str(VERIF_ROOT), stdout=subprocess.PIPE, stderr=subprocess.PIPE)))
     out: list[Disc] = []
     for hs, p in procs:
         so, se = p.communicate()
         if p.returncode != 0:
             tail = se.decode('utf-8', 'replace')[-1500:]
-            if 'wn/' in tail and 'wnv/battery' in tail:
+            if '/wn/' in tail and 'wnv/battery' in tail:
                 out.append(Disc('battery-crash', f'hashseed={hs}', 'battery completes', tail))
                 continue
             raise env.HarnessError(f'battery failed (hashseed {hs}): {tail}')
@@ -183,18 +209,19 @@ def oracle(case):
     ref = outs[seeds[0]]
     for hs in seeds:
         o = outs[hs]
-        d = diff(_strip(o['first']), _strip(o['second']), limit=3)
-        for p, e_, g in d:
-            out.append(Disc('repeated-call-differs', _where(o['first'], p), e_, g,
-                            note=f'hashseed={hs}'))
+        for cfg in o['first']:
+            for p, e_, g in diff(o['first'][cfg], o['second'][cfg], limit=2):
+                out.append(Disc('repeated-call-differs', f'{cfg} ' + _where(o['first'][cfg], p),
+                                e_, g, note=f'hashseed={hs}'))
         if o['raw_before'] != o['raw_after']:
             out.append(Disc('read-only-calls-changed-database', f'hashseed={hs}',
                             o['raw_before'], o['raw_after']))
     for hs in seeds[1:]:
-        d = diff(ref['first'], outs[hs]['first'], limit=4)
-        for p, e_, g in d:
-            out.append(Disc('differs-across-hash-seeds', _where(ref['first'], p), e_, g,
-                            note=f'hashseed {seeds[0]} vs {hs}'))
+        for cfg in ref['first']:
+            for p, e_, g in diff(ref['first'][cfg], outs[hs]['first'][cfg], limit=2):
+                out.append(Disc('differs-across-processes', f'{cfg} ' + _where(ref['first'][cfg], p),
+                                e_, g, note=f'hashseed {seeds[0]} vs {hs} (different hash seed '
+                                            f'and different order of earlier read-only calls)'))
         if len(out) > 8:
             break
     return out
